@@ -166,3 +166,30 @@ Print Assumptions C14_error_contract.
 Print Assumptions C14_error_contract_own.
 Print Assumptions C14_close_returns.
 Print Assumptions C14_close_env_can_return.
+
+(* ---- the correspondence check's history matchers (Conc/ParMapMatcher.v): the MapIterator matcher (worker
+        symmetry reduction) is sound; for MapStream the check uses the matcher WITHOUT the channel-buffer sorting,
+        which is sound; the matcher with buffer sorting that was shipped first accepts a history that no run of the
+        model produces (kept as a refutation: sorting the buffer of channel c is not a symmetry of the model) ---- *)
+From Juniper Require Conc.GoLTS Conc.ParMap Conc.ParMapMatcher.
+
+Theorem C14_iterator_matcher_sound : forall fv g par bufsz items gated evs,
+    ParMap.MI.accepts_history fv g par bufsz items gated evs = true ->
+    exists ls s, GoLTS.run (ParMap.MI.qstep fv) (ParMap.MI.init g par bufsz items gated) ls = Some s /\
+                 ParMapMatcher.MIM.mi_trace ls = evs.
+Proof. exact ParMapMatcher.MIM.mi_accepts_sound. Qed.
+
+Theorem C14_stream_matcher_sound : forall fv c evs,
+    ParMapMatcher.MSM.accepts_history_ws fv c evs = true ->
+    exists ls s, GoLTS.run (ParMap.MS.qstep fv) (ParMap.MS.init c) ls = Some s /\ ParMapMatcher.MSM.ms_trace ls = evs.
+Proof. exact ParMapMatcher.MSM.ms_ws_accepts_sound. Qed.
+
+Theorem C14_sorted_buffer_matcher_refuted :
+    exists c evs, ParMap.MS.accepts_history ParMapMatcher.pm_fx c evs = true /\
+      forall ls s, GoLTS.run (ParMap.MS.qstep ParMapMatcher.pm_fx) (ParMap.MS.init c) ls = Some s ->
+                   ParMapMatcher.MSM.ms_trace ls <> evs.
+Proof. exact ParMapMatcher.MSM.ms_accepts_sound_refuted. Qed.
+
+Print Assumptions C14_iterator_matcher_sound.
+Print Assumptions C14_stream_matcher_sound.
+Print Assumptions C14_sorted_buffer_matcher_refuted.
